@@ -11,7 +11,7 @@ V = os.path.dirname(os.path.dirname(os.path.abspath(__file__)))
 sid, patch, demo = sys.argv[1], sys.argv[2], sys.argv[3]
 feats = sys.argv[4] if len(sys.argv) > 4 else ""
 wt = "/tmp/vw-%s" % sid
-env = dict(os.environ, CARGO_NET_OFFLINE="true", CARGO_TARGET_DIR="/tmp/vw-target")
+env = dict(os.environ, CARGO_NET_OFFLINE="true", CARGO_TARGET_DIR="/tmp/vw-target-%s" % sid)  # per seed: evaluations may run in parallel
 
 
 def sh(cmd, cwd=None, **kw):
@@ -53,5 +53,6 @@ try:
     res["demo_without_change"] = r.stdout.strip().splitlines()
 finally:
     subprocess.run("git -C /repo worktree remove --force %s" % wt, shell=True, capture_output=True)
+    shutil.rmtree("/tmp/vw-target-%s" % sid, ignore_errors=True)
 print(json.dumps(res, indent=1))
 json.dump(res, open("/tmp/seed_eval_%s.json" % sid, "w"), indent=1)
